@@ -308,6 +308,16 @@ func c07Specs(quick bool) []*SeqSpec {
 		op(0, withEF(L(0, 13, 1, 0, 60000, 0, 0), fMilli)),                               // millisecond hold persisted after the default delay
 		tick(1 * sec), tick(4 * sec),
 	}})
+	// a value that outlives the hold that wrote it: the next holder comes out of the wait queue (or joins a counting
+	// key) and never writes the value itself
+	specs = append(specs, &SeqSpec{Name: "restart-inherited-value", Cfg: rcfg, Depth: d, Restart: true, MaxStates: 300000, Alphabet: []SeqOp{
+		op(0, withData(z(L(0, 16, 1, 0, 120, 1, 0)), v1)),
+		op(1, z(L(0, 16, 2, 5, 120, 0, 0))), // exclusive: waits for id 1 to leave
+		op(1, z(L(0, 16, 3, 0, 120, 1, 0))), // shares the key with id 1
+		op(0, U(0, 16, 1)),
+		op(0, withData(hapi.Cmd{Type: 2, Key: 16, Id: 1}, v2)),
+		tick(1 * sec),
+	}})
 	// a configured persistence delay of 4 s (records written late carry the time that is LEFT) and of 50 s (longer than
 	// the 44 s a hold spends in the short expiry wheel before it moves to the long table)
 	late := rcfg
